@@ -72,6 +72,48 @@ PROPS = {
     },
 }
 
+# ---------------------------------------------------------------- assembler (C05 and friends)
+def asm_classify(rq, impl):
+    f = impl.split(" ")
+    if f[0] == "diag" and len(f) > 1:
+        return "diag:" + f[1]
+    return f[0] if impl else "<empty>"
+
+
+def asm_nontrivial(rq, impl):
+    # every distinct source text is a case of its own; the empty text is the only trivial one
+    return not rq.endswith(" -")
+
+
+def asm_group(d):
+    return asm_classify(d["request"], d["impl"]) + "/" + asm_classify(d["request"], d.get("model") or "")
+
+
+PROPS["C05"] = {
+    "theorems": [],
+    "compare": cmp_default,
+    "classify": asm_classify,
+    "nontrivial": asm_nontrivial,
+    "group": asm_group,
+    "rule": ("UTF-8 source texts: grammar-derived programs over the whole instruction / trap / directive set under "
+             "random layouts and literal spellings; the same with token-level mutations (delete, duplicate, swap, "
+             "insert, replace by a token of any kind incl. data directives, .break, .orig, strings), byte-level "
+             "mutations, 2/3/4-byte characters at token boundaries and after x/0x/#/rN/\"/., comments abutting "
+             "tokens, fragment soups, size extremes (.blkw xFFFF repeated, label distances around 0x8000, more than "
+             "65,535 statements) and a corpus of past witnesses. A case is (stack flag, text); compared: outcome "
+             "class, diagnostic kind and primary label span, and for accepted texts origin, every emitted word, "
+             "every statement span and the .break addresses. Checked directly on the implementation: no unwind, "
+             "the report renders with {:?}, every label lies inside the source."),
+    "trusted": [
+        "Lean re-implementations of Rust's i16/u16::from_str_radix, char::to_digit, is_ascii_whitespace, to_ascii_lowercase",
+        "miette's renderer is exercised (must not panic), not modelled",
+    ],
+    "assumptions": [
+        "memory exhaustion is outside the model: the preprocessor expands .blkw/.stringz eagerly (65,535 tokens per `.blkw xFFFF`)",
+        "the warning printed for a negative .blkw count is not an observable of the model",
+    ],
+}
+
 PROPS["C02"]["theorems"] = [
     "Lace.C02.execute_eq_isa",
     "Lace.C02.exec_frame",
